@@ -335,13 +335,13 @@ private:
 			value = 1.0;
 			break;
 		case 0x02:
-			value = -INFINITY;
+			value = NAN;
 			break;
 		case 0x03:
 			value = -1.0;
 			break;
 		default:
-			value = -INFINITY;
+			value = NAN;
 		}
 		return value;
 	}
@@ -355,13 +355,13 @@ private:
 			value = 1.0;
 			break;
 		case 0x02:
-			value = -INFINITY;
+			value = NAN;
 			break;
 		case 0x03:
 			value = -1.0;
 			break;
 		default:
-			value = -INFINITY;
+			value = NAN;
 		}
 		return value;
 	}
